@@ -355,7 +355,7 @@ void run_C07(void) {
           for (unsigned rep = 0; rep < (th ? 6u : 1u); rep++) concurrent_pair_case(oi, CN[ni], rep);
   }
   for (size_t ni = 0; ni < N_ALL_N; ni++)
-    for (int fam = 0; fam < 9; fam++)
+    for (int fam = 0; fam < 12; fam++)
       for (unsigned rep = 0; rep < (th ? (ALL_N[ni] <= 4096 ? 10u : 2u) : 1u); rep++) product_dispatch_case(ALL_N[ni], fam, rep);
   for (int k = 0; k < 17; k++)
     for (int n = 0; n < 2; n++)
